@@ -31,6 +31,7 @@ class Case:
     via_env: bool = False
     pkg: str | None = None
     kind: str = ""
+    abs_args: bool = False
 
     def key(self):
         return (tuple(map(tuple, self.entries)), tuple(self.args), self.cwd, tuple(self.mypy_path), self.ns, self.epb, self.pkg)
@@ -143,7 +144,7 @@ def real_eval(case: Case, world: str, relative_args: bool = True) -> str:
         args = []
         for a in case.args:
             full = _abs(world, a)
-            args.append(os.path.relpath(full, cwd) if relative_args else full)
+            args.append(os.path.relpath(full, cwd) if (relative_args and not case.abs_args) else full)
         out = []
         pkg_out = ""
         if case.pkg:
